@@ -17,7 +17,13 @@ open Ctrmml.Mds Ctrmml.Seq Tables
 inductive Node
   | ev (e : MEv)
   | loop (body : List Node) (n : Nat)
+  /-- a loop with a break: `body` is the part before the FIRST break, `tail` the part after it
+  (which may contain further break markers `xbrk` of the same loop: `convert_track` drops them) -/
   | loopB (body tail : List Node) (n : Nat)
+  /-- a second, third, … break marker of the enclosing loop -/
+  | xbrk
+  /-- a subroutine call `PAT arg`, annotated with the tick string its callee plays -/
+  | call (arg : Nat) (T : List Tk)
 
 mutual
 /-- the event list of a bracket structure -/
@@ -25,6 +31,8 @@ def Node.flat : Node → List MEv
   | .ev e => [e]
   | .loop body n => ⟨mds_LP, 0⟩ :: (flatL body ++ [⟨mds_LPF, n⟩])
   | .loopB body tail n => ⟨mds_LP, 0⟩ :: (flatL body ++ ⟨mds_LPB, 0⟩ :: (flatL tail ++ [⟨mds_LPF, n⟩]))
+  | .xbrk => [⟨mds_LPB, 0⟩]
+  | .call arg _ => [⟨mds_PAT, arg⟩]
 def flatL : List Node → List MEv
   | [] => []
   | t :: ts => t.flat ++ flatL ts
@@ -33,28 +41,139 @@ end
 /-- number of passes of a loop whose `LPF` argument is `n` (one byte is written) -/
 def passes (n : Nat) : Nat := if n % 256 ≤ 1 then 1 else n % 256
 
+/-- the mode after an event: a `FLG` command with an argument below `0x80` sets the drum flag -/
+def Mode.after (M : Mode) (e : MEv) : Mode :=
+  if e.type = mds_FLG ∧ e.arg % 256 < 0x80 then M.set (decide (e.arg % 256 &&& 8 ≠ 0)) else M
+
+/-- the mode after a node: only an event at this level can change it (below, inside loops, the
+fragment has no mode-changing command: `mok`) -/
+def Node.after (M : Mode) : Node → Mode
+  | .ev e => M.after e
+  | _ => M
+
+def afterL (M : Mode) : List Node → Mode
+  | [] => M
+  | t :: ts => afterL (t.after M) ts
+
 mutual
-/-- tick string of the loop expansion -/
-def Node.exp (nS nM : Nat) : Node → List Tk
-  | .ev e => evTicks nS nM e
-  | .loop body n => repeatL (passes n) (expL nS nM body)
+/-- tick string of the loop expansion, starting in mode `M` -/
+def Node.exp (M : Mode) (nS nM : Nat) : Node → List Tk
+  | .ev e => evTicks M nS nM e
+  | .loop body n => repeatL (passes n) (expL M nS nM body)
   | .loopB body tail n =>
-    repeatL (passes n - 1) (expL nS nM body ++ expL nS nM tail) ++ expL nS nM body ++
-      (if n % 256 ≤ 1 then expL nS nM tail else [])
-def expL (nS nM : Nat) : List Node → List Tk
+    repeatL (passes n - 1) (expL M nS nM body ++ expL M nS nM tail) ++ expL M nS nM body ++
+      (if n % 256 ≤ 1 then expL M nS nM tail else [])
+  | .xbrk => []
+  | .call _ T => T
+def expL (M : Mode) (nS nM : Nat) : List Node → List Tk
   | [] => []
-  | t :: ts => t.exp nS nM ++ expL nS nM ts
+  | t :: ts => t.exp M nS nM ++ expL (t.after M) nS nM ts
 end
 
 mutual
-/-- all leaves are events of the linear fragment -/
+/-- the structure can be played starting in mode `M`: every event fits the mode it is reached in;
+a drum-mode switch (`FLG` with another drum bit) only at the top level of the list (`top`), not
+inside a loop -/
+def Node.mok (M : Mode) (top : Bool) : Node → Bool
+  | .ev e => M.evOk e || (top && e.type == mds_FLG)
+  | .loop body _ => mokL M false body
+  | .loopB body tail _ => mokL M false body && mokL M false tail
+  | .xbrk => true
+  | .call _ _ => true
+def mokL (M : Mode) (top : Bool) : List Node → Bool
+  | [] => true
+  | t :: ts => t.mok M top && mokL (t.after M) top ts
+end
+
+theorem Mode.after_of_evOk {M : Mode} {e : MEv} (h : M.evOk e = true) : M.after e = M := by
+  unfold Mode.after
+  split
+  · rename_i hc
+    simp only [Mode.evOk, Bool.and_eq_true, Bool.or_eq_true, bne_iff_ne, ne_eq] at h
+    rcases h.2 with h2 | h2
+    · exact absurd hc.1 h2
+    · simp only [drumSafe, Bool.or_eq_true, decide_eq_true_eq, beq_iff_eq] at h2
+      rcases h2 with h2 | h2
+      · omega
+      · rw [h2]; rfl
+  · rfl
+
+theorem Node.after_of_mok {M : Mode} : ∀ {t : Node}, t.mok M false = true → t.after M = M
+  | .ev e, h => by
+    simp only [Node.mok, Bool.false_and, Bool.or_false] at h
+    exact Mode.after_of_evOk h
+  | .loop _ _, _ => rfl
+  | .loopB _ _ _, _ => rfl
+  | .xbrk, _ => rfl
+  | .call _ _, _ => rfl
+
+theorem afterL_of_mok {M : Mode} : ∀ {ts : List Node}, mokL M false ts = true → afterL M ts = M
+  | [], _ => rfl
+  | t :: ts, h => by
+    simp only [mokL, Bool.and_eq_true] at h
+    have h1 := Node.after_of_mok h.1
+    simp only [afterL, h1]
+    rw [h1] at h
+    exact afterL_of_mok h.2
+
+theorem Node.mok_top {M : Mode} : ∀ {t : Node}, t.mok M false = true → t.mok M true = true
+  | .ev e, h => by
+    simp only [Node.mok, Bool.false_and, Bool.or_false] at h
+    simp [Node.mok, h]
+  | .loop _ _, h => h
+  | .loopB _ _ _, h => h
+  | .xbrk, _ => rfl
+  | .call _ _, _ => rfl
+
+theorem mokL_top {M : Mode} : ∀ {ts : List Node}, mokL M false ts = true → mokL M true ts = true
+  | [], _ => rfl
+  | t :: ts, h => by
+    simp only [mokL, Bool.and_eq_true] at h ⊢
+    exact ⟨Node.mok_top h.1, mokL_top h.2⟩
+
+theorem expL_cons_mok {M : Mode} {nS nM : Nat} {t : Node} {ts : List Node} (h : t.mok M false = true) :
+    expL M nS nM (t :: ts) = t.exp M nS nM ++ expL M nS nM ts := by
+  simp only [expL, Node.after_of_mok h]
+
+mutual
+/-- all leaves are events of the linear fragment (or calls / further break markers) -/
 def Node.lin : Node → Bool
   | .ev e => linEv e
   | .loop body _ => linL body
   | .loopB body tail _ => linL body && linL tail
+  | .xbrk => true
+  | .call _ _ => true
 def linL : List Node → Bool
   | [] => true
   | t :: ts => t.lin && linL ts
+end
+
+mutual
+/-- further break markers stand only where a first break of the same loop precedes them: directly
+in the `tail` of a `loopB` (`top` = "this list is such a tail") -/
+def Node.brkOk : Bool → Node → Bool
+  | _, .ev _ => true
+  | _, .loop body _ => brkOkL false body
+  | _, .loopB body tail _ => brkOkL false body && brkOkL true tail
+  | top, .xbrk => top
+  | _, .call _ _ => true
+def brkOkL : Bool → List Node → Bool
+  | _, [] => true
+  | top, t :: ts => t.brkOk top && brkOkL top ts
+end
+
+mutual
+/-- every call of the structure finds, through the pointer table of `seq`, a stream that — entered
+with the drum flag of the mode the call is reached in — plays the annotated tick string and returns -/
+def Node.callsOk (M : Mode) (seq : List Nat) (base mj : Nat) : Node → Prop
+  | .ev _ => True
+  | .loop body _ => callsOkL M seq base mj body
+  | .loopB body tail _ => callsOkL M seq base mj body ∧ callsOkL M seq base mj tail
+  | .xbrk => True
+  | .call arg T => ∃ t, slotTarget seq base (arg % 256) = some t ∧ SubPlays seq base mj M.dm t T
+def callsOkL (M : Mode) (seq : List Nat) (base mj : Nat) : List Node → Prop
+  | [] => True
+  | t :: ts => t.callsOk M seq base mj ∧ callsOkL (t.after M) seq base mj ts
 end
 
 mutual
@@ -62,9 +181,24 @@ def Node.noBreak : Node → Bool
   | .ev _ => true
   | .loop body _ => noBreakL body
   | .loopB _ _ _ => false
+  | .xbrk => false
+  | .call _ _ => false
 def noBreakL : List Node → Bool
   | [] => true
   | t :: ts => t.noBreak && noBreakL ts
+end
+
+mutual
+/-- no subroutine calls -/
+def Node.noCall : Node → Bool
+  | .ev _ => true
+  | .loop body _ => noCallL body
+  | .loopB body tail _ => noCallL body && noCallL tail
+  | .xbrk => true
+  | .call _ _ => false
+def noCallL : List Node → Bool
+  | [] => true
+  | t :: ts => t.noCall && noCallL ts
 end
 
 /-! ### the two loop instructions in the encoder -/
@@ -125,6 +259,74 @@ theorem encEv_lpf_nobreak (nS nM : Nat) (e : Enc) (arg : Nat) (r : List Nat) (hb
     rw [encOther_lpf, hb]; simp
   exact encEv_other (by decide) h
 
+/-! ### the subroutine call and the dropped break marker -/
+
+/-- a break marker of a loop that already has a break is dropped without a trace -/
+theorem encEv_xbrk (nS nM : Nat) (e : Enc) (arg : Nat) (h : e.breaks.head?.getD 0 ≠ 0) :
+    encEv nS nM e ⟨mds_LPB, arg⟩ = .ok e := by
+  simp [encEv, h]
+
+theorem step_pat {seq : List Nat} {base mj : Nat} {s : St} {k t : Nat} (h : seq[s.pc]? = some mds_PAT)
+    (h1 : seq[s.pc + 1]? = some k) (ht : slotTarget seq base k = some t) :
+    step seq base mj s = .ok { s with pc := t, calls := (s.pc + 2, none) :: s.calls } := by
+  simp [step, rd, h, h1, ht, mds_REST, mds_SLR, mds_FINISH, mds_DMFINISH, mds_JUMP, mds_LP, mds_LPF, mds_LPB, mds_LPBL,
+    mds_PAT]
+
+theorem step_return {seq : List Nat} {base mj : Nat} {s : St} {ret : Nat}
+    {cs : List (Nat × Option (Nat × Option Nat × Option Nat))}
+    (h : seq[s.pc]? = some mds_FINISH) (hc : s.calls = (ret, none) :: cs) :
+    step seq base mj s = .ok { s with pc := ret, calls := cs, lastNote := none, lastRest := none } := by
+  simp [step, rd, h, hc, mds_REST, mds_SLR, mds_FINISH]
+
+/-- the encoder at a subroutine call: two bytes, both registers forgotten -/
+def afterPAT (e : Enc) (arg : Nat) : Enc :=
+  { e with out := e.out ++ [mds_PAT, arg % 256], lastRest := U16, lastNote := U16, lastType := mds_PAT }
+
+theorem encEv_pat (nS nM : Nat) (e : Enc) (arg : Nat) : encEv nS nM e ⟨mds_PAT, arg⟩ = .ok (afterPAT e arg) := by
+  have n1 : ¬ (mds_PAT = mds_SEGNO) := by decide
+  have n2 : ¬ (mds_PAT = mds_SLR ∨ mds_PAT = mds_FINISH) := by decide
+  have n3 : byteArgOps.contains mds_PAT = false := by decide
+  have n4 : ¬ (mds_PAT = mds_MTAB) := by decide
+  have n5 : ¬ (mds_PAT = mds_INS ∨ mds_PAT = mds_PCM) := by decide
+  have n6 : ¬ (mds_PAT = mds_PEG) := by decide
+  have n7 : wordArgOps.contains mds_PAT = false := by decide
+  have n8 : ¬ (mds_PAT = mds_JUMP) := by decide
+  have h : encOther nS nM e mds_PAT arg =
+      .ok { e with out := e.out ++ [mds_PAT, arg % 256], lastRest := U16, lastNote := U16 } := by
+    simp only [encOther, n1, n2, n3, n4, n5, n6, n7, n8, if_false, Bool.false_eq_true, if_true]
+  exact encEv_other (by decide) h
+
+/-- **the call / return join point** -/
+theorem pat_good {M : Mode} {seq : List Nat} {base mj : Nat} (hS : M.Sound seq base mj) {e : Enc} {s : St}
+    {O : List Tk} (g : Good M e s O) (arg : Nat)
+    (hp : (afterPAT e arg).out <+: seq) {t : Nat} (ht : slotTarget seq base (arg % 256) = some t) {T : List Tk}
+    (hsub : SubPlays seq base mj M.dm t T) :
+    ∃ s', Reach seq base mj s s' ∧ Frame s s' ∧ Good M (afterPAT e arg) s' (T.reverse ++ O) := by
+  have hp' : e.out ++ [mds_PAT, arg % 256] <+: seq := hp
+  obtain ⟨s1, r1, f1, i1⟩ := resolve (base := base) (mj := mj) hS g (b := mds_PAT) (by decide) hp'
+  have r0 : seq[s1.pc]? = some mds_PAT := by rw [i1.pc]; exact rd_at hp'
+  have r1' : seq[s1.pc + 1]? = some (arg % 256) := by rw [i1.pc]; exact rd_at1 hp'
+  have hs := step_pat (base := base) (mj := mj) r0 r1' ht
+  obtain ⟨s2, hs2, hpc2, hca2, hlo2, hdr2, hju2, hou2⟩ : ∃ s2 : St, step seq base mj s1 = .ok s2 ∧ s2.pc = t ∧
+      s2.calls = (s1.pc + 2, none) :: s1.calls ∧ s2.loops = s1.loops ∧ s2.drum = s1.drum ∧ s2.jumps = s1.jumps ∧
+      s2.out = s1.out := ⟨_, hs, rfl, rfl, rfl, rfl, rfl, rfl⟩
+  obtain ⟨s3, r3, f3, hfin, ho3⟩ := hsub s2 hpc2 (hdr2.trans i1.drum)
+  have hret := step_return (base := base) (mj := mj) hfin (f3.calls.trans hca2)
+  obtain ⟨s4, hs4, hpc4, hn4, hr4, hca4, hlo4, hdr4, hju4, hou4⟩ : ∃ s4 : St, step seq base mj s3 = .ok s4 ∧
+      s4.pc = s1.pc + 2 ∧ s4.lastNote = none ∧ s4.lastRest = none ∧ s4.calls = s1.calls ∧ s4.loops = s3.loops ∧
+      s4.drum = s3.drum ∧ s4.jumps = s3.jumps ∧ s4.out = s3.out := ⟨_, hret, rfl, rfl, rfl, rfl, rfl, rfl, rfl, rfl⟩
+  refine ⟨s4, r1.trans (.head hs2 (by rw [hou2]; exact Nat.le_refl _) (r3.trans (.one hs4 (by rw [hou4]; exact Nat.le_refl _)))),
+    ⟨?_, ?_, ?_, ?_⟩, ⟨fun h => absurd rfl h, fun h => absurd rfl h, ?_, .inl ⟨?_, ?_, ?_⟩⟩⟩
+  · rw [hlo4, f3.loops, hlo2]; exact f1.loops
+  · rw [hca4]; exact f1.calls
+  · rw [hdr4, f3.drum, hdr2]; exact f1.drum
+  · rw [hju4, f3.jumps, hju2]; exact f1.jumps
+  · rw [hdr4, f3.drum, hdr2]; exact i1.drum
+  · exact needLenB_cmd (show mds_PAT ≥ 0xe0 by decide)
+  · rw [hpc4, i1.pc]; simp [afterPAT]
+  · rw [hou4, ho3, hou2, i1.out]
+
+
 /-! ### the interpreter going round a loop without break -/
 
 theorem repeatL_succ_reverse (k : Nat) (T O : List Tk) :
@@ -133,16 +335,17 @@ theorem repeatL_succ_reverse (k : Nat) (T O : List Tk) :
 
 /-- passes with a known remaining count `k + 1`: the body is played `k + 1` more times, then the
 interpreter leaves the loop -/
-theorem loop_passes {seq : List Nat} {base mj : Nat} {e1 e2 eF : Enc} {T : List Tk} {n' : Nat}
-    (hsem : ∀ (s : St) (O : List Tk), Good e1 s O →
-      ∃ s1, Reach seq base mj s s1 ∧ Frame s s1 ∧ Good e2 s1 (T.reverse ++ O))
+theorem loop_passes {M : Mode} {seq : List Nat} {base mj : Nat} (hS : M.Sound seq base mj) {e1 e2 eF : Enc}
+    {T : List Tk} {n' : Nat}
+    (hsem : ∀ (s : St) (O : List Tk), Good M e1 s O →
+      ∃ s1, Reach seq base mj s s1 ∧ FrameX s s1 ∧ Good M e2 s1 (T.reverse ++ O))
     (hF : eF.out = e2.out ++ [mds_LPF, n']) (hFn : eF.lastNote = e2.lastNote) (hFr : eF.lastRest = e2.lastRest)
     (hFt : eF.lastType ≥ 0xe0)
     (h1n : e1.lastNote = U16) (h1r : e1.lastRest = U16) (h1t : needLenB e1 = false)
     (hp : eF.out <+: seq) :
-    ∀ (k : Nat) (s : St) (O : List Tk) (fs : List LoopF), Good e1 s O →
+    ∀ (k : Nat) (s : St) (O : List Tk) (fs : List LoopF), Good M e1 s O →
       s.loops = { start := e1.out.length, count := k + 1 } :: fs →
-      ∃ s', Reach seq base mj s s' ∧ Good eF s' ((repeatL (k + 1) T).reverse ++ O) ∧ s'.loops = fs ∧
+      ∃ s', Reach seq base mj s s' ∧ Good M eF s' ((repeatL (k + 1) T).reverse ++ O) ∧ s'.loops = fs ∧
         s'.calls = s.calls ∧ s'.drum = s.drum ∧ s'.jumps = s.jumps := by
   rw [hF] at hp
   intro k
@@ -150,7 +353,7 @@ theorem loop_passes {seq : List Nat} {base mj : Nat} {e1 e2 eF : Enc} {T : List 
   | zero =>
     intro s O fs g hl
     obtain ⟨s1, r1, f1, g1⟩ := hsem s O g
-    obtain ⟨s2, r2, f2, i2⟩ := resolve (base := base) (mj := mj) g1 (b := mds_LPF) (by decide) hp
+    obtain ⟨s2, r2, f2, i2⟩ := resolve (base := base) (mj := mj) hS g1 (b := mds_LPF) (by decide) hp
     have r0 : seq[s2.pc]? = some mds_LPF := by rw [i2.pc]; exact rd_at hp
     have r1' : seq[s2.pc + 1]? = some n' := by rw [i2.pc]; exact rd_at1 hp
     have hl2 : s2.loops = { start := e1.out.length, count := 0 + 1 } :: fs := by rw [f2.loops, f1.loops, hl]
@@ -163,12 +366,12 @@ theorem loop_passes {seq : List Nat} {base mj : Nat} {e1 e2 eF : Enc} {T : List 
     · simp [hF, i2.pc]
     · simp [i2.out, repeatL]
     · exact f2.calls.trans f1.calls
-    · exact f2.drum.trans f1.drum
+    · exact i2.drum.trans g.drum.symm
     · exact f2.jumps.trans f1.jumps
   | succ k ih =>
     intro s O fs g hl
     obtain ⟨s1, r1, f1, g1⟩ := hsem s O g
-    obtain ⟨s2, r2, f2, i2⟩ := resolve (base := base) (mj := mj) g1 (b := mds_LPF) (by decide) hp
+    obtain ⟨s2, r2, f2, i2⟩ := resolve (base := base) (mj := mj) hS g1 (b := mds_LPF) (by decide) hp
     have r0 : seq[s2.pc]? = some mds_LPF := by rw [i2.pc]; exact rd_at hp
     have r1' : seq[s2.pc + 1]? = some n' := by rw [i2.pc]; exact rd_at1 hp
     have hl2 : s2.loops = { start := e1.out.length, count := k + 1 + 1 } :: fs := by rw [f2.loops, f1.loops, hl]
@@ -180,31 +383,32 @@ theorem loop_passes {seq : List Nat} {base mj : Nat} {e1 e2 eF : Enc} {T : List 
         s3.pc = e1.out.length ∧ s3.loops = { start := e1.out.length, count := k + 1 } :: fs ∧
         s3.calls = s2.calls ∧ s3.drum = s2.drum ∧ s3.jumps = s2.jumps ∧ s3.out = s2.out :=
       ⟨_, hs, rfl, rfl, rfl, rfl, rfl, rfl⟩
-    have g3 : Good e1 s3 (T.reverse ++ O) :=
+    have g3 : Good M e1 s3 (T.reverse ++ O) :=
       ⟨by rw [h1n]; exact fun h => absurd rfl h, by rw [h1r]; exact fun h => absurd rfl h, hdr3.trans i2.drum,
         .inl ⟨h1t, hpc3, hou3.trans i2.out⟩⟩
     obtain ⟨s', r', g', hl', hc', hd', hj'⟩ := ih s3 _ fs g3 hlo3
     refine ⟨s', r1.trans (r2.trans (.head hs3 (by rw [hou3]; exact Nat.le_refl _) r')), ?_, hl', ?_, ?_, ?_⟩
     · rw [← repeatL_succ_reverse]; exact g'
     · rw [hc', hca3]; exact f2.calls.trans f1.calls
-    · rw [hd', hdr3]; exact f2.drum.trans f1.drum
+    · rw [hd', hdr3]; exact i2.drum.trans g.drum.symm
     · rw [hj', hju3]; exact f2.jumps.trans f1.jumps
 
 /-- the first pass (count not yet known) and the rest: `passes n'` passes in all -/
-theorem loop_first {seq : List Nat} {base mj : Nat} {e1 e2 eF : Enc} {T : List Tk} {n : Nat}
-    (hsem : ∀ (s : St) (O : List Tk), Good e1 s O →
-      ∃ s1, Reach seq base mj s s1 ∧ Frame s s1 ∧ Good e2 s1 (T.reverse ++ O))
+theorem loop_first {M : Mode} {seq : List Nat} {base mj : Nat} (hS : M.Sound seq base mj) {e1 e2 eF : Enc}
+    {T : List Tk} {n : Nat}
+    (hsem : ∀ (s : St) (O : List Tk), Good M e1 s O →
+      ∃ s1, Reach seq base mj s s1 ∧ FrameX s s1 ∧ Good M e2 s1 (T.reverse ++ O))
     (hF : eF.out = e2.out ++ [mds_LPF, n % 256]) (hFn : eF.lastNote = e2.lastNote) (hFr : eF.lastRest = e2.lastRest)
     (hFt : eF.lastType ≥ 0xe0)
     (h1n : e1.lastNote = U16) (h1r : e1.lastRest = U16) (h1t : needLenB e1 = false)
-    (hp : eF.out <+: seq) (s : St) (O : List Tk) (fs : List LoopF) (g : Good e1 s O)
+    (hp : eF.out <+: seq) (s : St) (O : List Tk) (fs : List LoopF) (g : Good M e1 s O)
     (hl : s.loops = { start := e1.out.length, count := 0 } :: fs) :
-    ∃ s', Reach seq base mj s s' ∧ Good eF s' ((repeatL (passes n) T).reverse ++ O) ∧ s'.loops = fs ∧
+    ∃ s', Reach seq base mj s s' ∧ Good M eF s' ((repeatL (passes n) T).reverse ++ O) ∧ s'.loops = fs ∧
       s'.calls = s.calls ∧ s'.drum = s.drum ∧ s'.jumps = s.jumps := by
   have hp' := hp
   rw [hF] at hp
   obtain ⟨s1, r1, f1, g1⟩ := hsem s O g
-  obtain ⟨s2, r2, f2, i2⟩ := resolve (base := base) (mj := mj) g1 (b := mds_LPF) (by decide) hp
+  obtain ⟨s2, r2, f2, i2⟩ := resolve (base := base) (mj := mj) hS g1 (b := mds_LPF) (by decide) hp
   have r0 : seq[s2.pc]? = some mds_LPF := by rw [i2.pc]; exact rd_at hp
   have r1' : seq[s2.pc + 1]? = some (n % 256) := by rw [i2.pc]; exact rd_at1 hp
   have hl2 : s2.loops = { start := e1.out.length, count := 0 } :: fs := by rw [f2.loops, f1.loops, hl]
@@ -217,16 +421,16 @@ theorem loop_first {seq : List Nat} {base mj : Nat} {e1 e2 eF : Enc} {T : List T
         s3.pc = e1.out.length ∧ s3.loops = { start := e1.out.length, count := k + 1 } :: fs ∧
         s3.calls = s2.calls ∧ s3.drum = s2.drum ∧ s3.jumps = s2.jumps ∧ s3.out = s2.out :=
       ⟨_, hs, rfl, by simp [hk], rfl, rfl, rfl, rfl⟩
-    have g3 : Good e1 s3 (T.reverse ++ O) :=
+    have g3 : Good M e1 s3 (T.reverse ++ O) :=
       ⟨by rw [h1n]; exact fun h => absurd rfl h, by rw [h1r]; exact fun h => absurd rfl h, hdr3.trans i2.drum,
         .inl ⟨h1t, hpc3, hou3.trans i2.out⟩⟩
     obtain ⟨s', r', g', hl', hc', hd', hj'⟩ :=
-      loop_passes (base := base) (mj := mj) hsem hF hFn hFr hFt h1n h1r h1t hp' k s3 _ fs g3 hlo3
+      loop_passes (base := base) (mj := mj) hS hsem hF hFn hFr hFt h1n h1r h1t hp' k s3 _ fs g3 hlo3
     have hpass : passes n = k + 1 + 1 := by unfold passes; split <;> omega
     refine ⟨s', r1.trans (r2.trans (.head hs3 (by rw [hou3]; exact Nat.le_refl _) r')), ?_, hl', ?_, ?_, ?_⟩
     · rw [hpass, ← repeatL_succ_reverse]; exact g'
     · rw [hc', hca3]; exact f2.calls.trans f1.calls
-    · rw [hd', hdr3]; exact f2.drum.trans f1.drum
+    · rw [hd', hdr3]; exact i2.drum.trans g.drum.symm
     · rw [hj', hju3]; exact f2.jumps.trans f1.jumps
   · rw [if_neg hc] at hs
     have hpass : passes n = 1 := by unfold passes; split <;> omega
@@ -237,7 +441,7 @@ theorem loop_first {seq : List Nat} {base mj : Nat} {e1 e2 eF : Enc} {T : List T
     · simp [hF, i2.pc]
     · simp [i2.out, repeatL, hpass]
     · exact f2.calls.trans f1.calls
-    · exact f2.drum.trans f1.drum
+    · exact i2.drum.trans g.drum.symm
     · exact f2.jumps.trans f1.jumps
 
 def afterLP (e : Enc) : Enc :=
@@ -247,9 +451,9 @@ def afterLPF (e2 : Enc) (n : Nat) (r : List Nat) : Enc :=
   { e2 with out := e2.out ++ [mds_LPF, n % 256], breaks := r, lastType := mds_LPF }
 
 /-- one loop without break around a body that is already known to be simulated -/
-theorem segOk_loop {nS nM : Nat} {body : List MEv} {T : List Tk} (n : Nat)
-    (hbody : ∀ e : Enc, SegOk nS nM e body T) (e : Enc) :
-    SegOk nS nM e (⟨mds_LP, 0⟩ :: (body ++ [⟨mds_LPF, n⟩])) (repeatL (passes n) T) := by
+theorem segOk_loop {M : Mode} {nS nM : Nat} {body : List MEv} {T : List Tk} (n : Nat)
+    (hbody : ∀ e : Enc, SegOk M nS nM e body T) (e : Enc) :
+    SegOk M nS nM e (⟨mds_LP, 0⟩ :: (body ++ [⟨mds_LPF, n⟩])) (repeatL (passes n) T) := by
   obtain ⟨e1, he1⟩ : ∃ e1 : Enc, e1 = afterLP e := ⟨_, rfl⟩
   obtain ⟨e2, he2, p2, b2, sp2, sem2⟩ := hbody e1
   have hb2 : e2.breaks = 0 :: e.breaks := by rw [b2, he1]; rfl
@@ -261,10 +465,10 @@ theorem segOk_loop {nS nM : Nat} {body : List MEv} {T : List Tk} (n : Nat)
   have p1 : e.out <+: e1.out := by rw [he1]; exact List.prefix_append _ _
   have pF : e2.out <+: eF.out := by rw [heF]; exact List.prefix_append _ _
   refine ⟨eF, henc, p1.trans (p2.trans pF), by rw [heF]; rfl, by rw [heF]; show e2.segnoPos = _; rw [sp2, he1]; rfl, ?_⟩
-  intro seq base mj s O hp g
+  intro seq base mj s O hS hp g
   have hp1 : e.out ++ [mds_LP] <+: seq := by
     have := p2.trans (pF.trans hp); rw [he1] at this; exact this
-  obtain ⟨s0, r0, f0, i0⟩ := resolve (base := base) (mj := mj) g (b := mds_LP) (by decide) hp1
+  obtain ⟨s0, r0, f0, i0⟩ := resolve (base := base) (mj := mj) hS g (b := mds_LP) (by decide) hp1
   have rd0 : seq[s0.pc]? = some mds_LP := by rw [i0.pc]; exact rd_at hp1
   have hs := step_lp (base := base) (mj := mj) rd0
   obtain ⟨s1, hs1, hpc1, hlo1, hca1, hdr1, hju1, hou1⟩ : ∃ s1 : St, step seq base mj s0 = .ok s1 ∧
@@ -273,11 +477,14 @@ theorem segOk_loop {nS nM : Nat} {body : List MEv} {T : List Tk} (n : Nat)
     ⟨_, hs, rfl, rfl, rfl, rfl, rfl, rfl⟩
   have hlen1 : e1.out.length = s0.pc + 1 := by rw [he1, i0.pc]; simp [afterLP]
   have h1t : needLenB e1 = false := by rw [he1]; exact needLenB_cmd (show mds_LP ≥ 0xe0 by decide)
-  have g1 : Good e1 s1 O :=
+  have g1 : Good M e1 s1 O :=
     ⟨by rw [he1]; exact fun h => absurd rfl h, by rw [he1]; exact fun h => absurd rfl h, hdr1.trans i0.drum,
       .inl ⟨h1t, by rw [hpc1, hlen1], hou1.trans i0.out⟩⟩
-  obtain ⟨s', r', g', hl', hc', hd', hj'⟩ := loop_first (base := base) (mj := mj) (n := n)
-    (fun s O g => sem2 seq base mj s O (pF.trans hp) g) (by rw [heF]; rfl) (by rw [heF]; rfl) (by rw [heF]; rfl)
+  obtain ⟨s', r', g', hl', hc', hd', hj'⟩ := loop_first (base := base) (mj := mj) (n := n) hS
+    (fun s O g => by
+      obtain ⟨x, a, b, c⟩ := sem2 seq base mj s O hS (pF.trans hp) g
+      exact ⟨x, a, b.x, c⟩)
+    (by rw [heF]; rfl) (by rw [heF]; rfl) (by rw [heF]; rfl)
     (by rw [heF]; show mds_LPF ≥ 0xe0; decide) (by rw [he1]; rfl) (by rw [he1]; rfl) h1t hp s1 O s0.loops g1 (by rw [hlo1, hlen1])
   refine ⟨s', r0.trans (.head hs1 (by rw [hou1]; exact Nat.le_refl _) r'), ⟨?_, ?_, ?_, ?_⟩, g'⟩
   · rw [hl']; exact f0.loops
@@ -286,37 +493,45 @@ theorem segOk_loop {nS nM : Nat} {body : List MEv} {T : List Tk} (n : Nat)
   · rw [hj', hju1]; exact f0.jumps
 
 mutual
-/-- **nested loops without break** -/
-theorem node_ok (nS nM : Nat) : ∀ (t : Node), t.lin = true → t.noBreak = true → ∀ e : Enc,
-    SegOk nS nM e t.flat (t.exp nS nM)
-  | .ev ev, hl, _, e => by
-    have := segOk_cons (encEv_lin nS nM e ev (by simpa [Node.lin] using hl)) (fun e1 _ => segOk_nil nS nM e1)
+/-- **nested loops without break** (no mode switch) -/
+theorem node_ok (M : Mode) (nS nM : Nat) : ∀ (t : Node), t.lin = true → t.noBreak = true → t.mok M false = true →
+    ∀ e : Enc, SegOk M nS nM e t.flat (t.exp M nS nM)
+  | .ev ev, hl, _, hm, e => by
+    have hm' : M.evOk ev = true := by simpa [Node.mok] using hm
+    have := segOk_cons (encEv_lin M nS nM e ev (by simpa [Node.lin] using hl) hm') (fun e1 _ => segOk_nil M nS nM e1)
     simpa [Node.flat, Node.exp] using this
-  | .loop body n, hl, hn, e => by
+  | .loop body n, hl, hn, hm, e => by
     simp only [Node.flat, Node.exp]
-    exact segOk_loop n (fun e1 => list_ok nS nM body (by simpa [Node.lin] using hl) (by simpa [Node.noBreak] using hn) e1) e
-  | .loopB _ _ _, _, hn, _ => by simp [Node.noBreak] at hn
-theorem list_ok (nS nM : Nat) : ∀ (ts : List Node), linL ts = true → noBreakL ts = true → ∀ e : Enc,
-    SegOk nS nM e (flatL ts) (expL nS nM ts)
-  | [], _, _, e => by simpa [flatL, expL] using segOk_nil nS nM e
-  | t :: ts, hl, hn, e => by
+    exact segOk_loop n (fun e1 => list_ok M nS nM body (by simpa [Node.lin] using hl) (by simpa [Node.noBreak] using hn)
+      (by simpa [Node.mok] using hm) e1) e
+  | .loopB _ _ _, _, hn, _, _ => by simp [Node.noBreak] at hn
+  | .xbrk, _, hn, _, _ => by simp [Node.noBreak] at hn
+  | .call _ _, _, hn, _, _ => by simp [Node.noBreak] at hn
+theorem list_ok (M : Mode) (nS nM : Nat) : ∀ (ts : List Node), linL ts = true → noBreakL ts = true →
+    mokL M false ts = true → ∀ e : Enc, SegOk M nS nM e (flatL ts) (expL M nS nM ts)
+  | [], _, _, _, e => by simpa [flatL, expL] using segOk_nil M nS nM e
+  | t :: ts, hl, hn, hm, e => by
     simp only [linL, Bool.and_eq_true] at hl
     simp only [noBreakL, Bool.and_eq_true] at hn
-    simp only [flatL, expL]
-    exact segOk_append (node_ok nS nM t hl.1 hn.1 e) (fun e1 _ => list_ok nS nM ts hl.2 hn.2 e1)
+    simp only [mokL, Bool.and_eq_true] at hm
+    have ha := Node.after_of_mok hm.1
+    rw [ha] at hm
+    simp only [flatL, expL, ha]
+    exact segOk_append (node_ok M nS nM t hl.1 hn.1 hm.1 e) (fun e1 _ => list_ok M nS nM ts hl.2 hn.2 hm.2 e1)
 end
 
 /-- **C02, counted loops without break (any nesting), terminated by `FINISH`.** -/
 theorem codec_roundtrip_loops_nobreak (nS nM : Nat) (ts : List Node) (hl : linL ts = true) (hn : noBreakL ts = true)
-    (farg : Nat) :
+    (hm : mokL Mode.plain false ts = true) (farg : Nat) :
     ∃ bytes, convertTrack nS nM (flatL ts ++ [⟨mds_FINISH, farg⟩]) = .ok bytes ∧
-      ∀ (base mj : Nat) (ln lr : Option Nat), Plays bytes base mj ln lr (expL nS nM ts) := by
-  obtain ⟨e1, he1, _, _, _, sem⟩ := list_ok nS nM ts hl hn {}
+      ∀ (base mj : Nat) (ln lr : Option Nat), Plays bytes base mj ln lr (expL Mode.plain nS nM ts) := by
+  obtain ⟨e1, he1, _, _, _, sem⟩ := list_ok Mode.plain nS nM ts hl hn hm {}
   refine ⟨e1.out ++ [mds_FINISH], ?_, ?_⟩
   · simp [convertTrack, encAll_append, he1, encAll, encEv_finish, Except.map]
   · intro base mj ln lr
-    obtain ⟨s1, r1, f1, g1⟩ := sem (e1.out ++ [mds_FINISH]) base mj _ [] (List.prefix_append _ _) (good_init ln lr)
-    obtain ⟨s2, r2, hfin, ho⟩ := finish_run (base := base) (mj := mj) g1 (f1.calls) (List.prefix_refl _)
+    have hS := Mode.plain_sound (e1.out ++ [mds_FINISH]) base mj
+    obtain ⟨s1, r1, f1, g1⟩ := sem (e1.out ++ [mds_FINISH]) base mj _ [] hS (List.prefix_append _ _) (good_init ln lr)
+    obtain ⟨s2, r2, hfin, ho⟩ := finish_run (base := base) (mj := mj) hS g1 (f1.calls) (List.prefix_refl _)
     exact ⟨s2, r1.trans r2, hfin, by simpa using ho⟩
 
 end Ctrmml.Codec
